@@ -439,7 +439,10 @@ func (u *Unit) notInLocals(locals []Term) func(addr Term) Term {
 
 func (u *Unit) havocAll(st *State, fr *Frame) {
 	locals := u.unleakedLocals(fr)
-	pred := u.notInLocals(locals)
+	inner := u.notInLocals(locals)
+	// even arbitrary user code is assumed not to rewrite the structures declared
+	// `assume_stable` (requests, responses, service descriptors)
+	pred := func(addr Term) Term { return And(inner(addr), u.notStable(addr)) }
 	st.AllHavocs = append(st.AllHavocs, pred) // applied lazily per key (getMem)
 }
 
@@ -1273,6 +1276,24 @@ func (u *Unit) callAssertions(st *State, fr *Frame, site ssa.Instruction, desigs
 }
 
 func argTypeAt(site ssa.Instruction, j int) types.Type {
+	if sel, ok := site.(*ssa.Select); ok {
+		// send case of a select: arg0 = channel, arg1 = value
+		for _, s := range sel.States {
+			if s.Dir == types.SendOnly {
+				if j == 0 {
+					return s.Chan.Type()
+				}
+				return s.Send.Type()
+			}
+		}
+		return nil
+	}
+	if snd, ok := site.(*ssa.Send); ok {
+		if j == 0 {
+			return snd.Chan.Type()
+		}
+		return snd.X.Type()
+	}
 	var c *ssa.CallCommon
 	switch s := site.(type) {
 	case *ssa.Call:
